@@ -328,3 +328,61 @@ Fixpoint bits_of_pos (p : positive) : list bool :=
 
 Definition std_enc (v : val) : nat := Pos.to_nat (pos_of_bits (bits_of_tokens (tokens_of v))).
 Definition std_dec (a : nat) : option val := val_of_tokens (tokens_of_bits 0 (bits_of_pos (Pos.of_nat a))).
+
+(* ---------------------------------------------------------------- 5. witness runtimes and the example instance *)
+(* the same interpreter seen from another enum class *)
+Definition with_enum (rt : Runtime) (f : val -> res tok) : Runtime := {|
+  utf8_decode := utf8_decode rt; utf8_encode := utf8_encode rt; canon_text := canon_text rt;
+  int_of_str := int_of_str rt; float_of_str := float_of_str rt; dec_of_str := dec_of_str rt;
+  frac_of_str := frac_of_str rt; uuid_of_str := uuid_of_str rt; uuid_of_int := uuid_of_int rt;
+  path_of_str := path_of_str rt; enum_of_val := f; int_of_float := int_of_float rt;
+  float_of_int := float_of_int rt; load := load rt; pendulum_parse := pendulum_parse rt;
+  time_fromisoformat := time_fromisoformat rt; fromtimestamp_utc := fromtimestamp_utc rt;
+  timestamp := timestamp rt; td_total_seconds := td_total_seconds rt; td_of_seconds := td_of_seconds rt;
+  is_digit_str := is_digit_str rt |}.
+(* ... with another duration parser *)
+Definition with_parse (rt : Runtime) (p : string -> res parsed) : Runtime := {|
+  utf8_decode := utf8_decode rt; utf8_encode := utf8_encode rt; canon_text := canon_text rt;
+  int_of_str := int_of_str rt; float_of_str := float_of_str rt; dec_of_str := dec_of_str rt;
+  frac_of_str := frac_of_str rt; uuid_of_str := uuid_of_str rt; uuid_of_int := uuid_of_int rt;
+  path_of_str := path_of_str rt; enum_of_val := enum_of_val rt; int_of_float := int_of_float rt;
+  float_of_int := float_of_int rt; load := load rt; pendulum_parse := p;
+  time_fromisoformat := time_fromisoformat rt; fromtimestamp_utc := fromtimestamp_utc rt;
+  timestamp := timestamp rt; td_total_seconds := td_total_seconds rt; td_of_seconds := td_of_seconds rt;
+  is_digit_str := is_digit_str rt |}.
+(* a parser that is strict about ISO 8601: the dangling 'PT' is rejected *)
+Definition strict_parse (p : string -> res parsed) (s : string) : res parsed :=
+  if String.eqb s "PT"%string then Raise EValue else p s.
+
+(* an enum class whose member E.c has the bytes value b"yy": E(b"yy") is E.c, E("yy") is a ValueError *)
+Definition bytes_enum_of_val (v : val) : res tok :=
+  match v with VText CBytes "yy"%string => Ok "E.c"%string | _ => Raise EValue end.
+Definition bytes_enum_value (m : tok) : res val :=
+  if String.eqb m "E.c"%string then Ok (VText CBytes "yy"%string) else Raise EOther.
+
+(* the example instance: leaf ids 0 int, 1 date, 2 timedelta, 3 Decimal, 4 enum (str values), 5 datetime *)
+Definition ex_kinds (s : nat) : option leafkind :=
+  match s with 0 => Some LInt | 1 => Some LDate | 2 => Some LTimeDelta | 3 => Some LDec | 4 => Some LEnum
+             | 5 => Some LDateTime | _ => None end.
+Definition ex_ev (m : tok) : res val := Ok (VText CStr m).            (* the toy enum: the member's value is its token *)
+Definition ex_base : Core.runtime := {|
+  Core.leaf_u := fun _ _ => Core.Unmodelled; Core.leaf_m := fun _ _ => Core.Unmodelled;
+  Core.none_u := fun _ => Core.Unmodelled; Core.load_scalar := fun x => Core.Ok x;
+  Core.values_scalar := fun _ => Core.Raise Core.EType; Core.items_scalar := fun _ => Core.Raise Core.EType;
+  Core.pairlike_scalar := fun _ => false; Core.index := fun i => Core.PAtom i;
+  Core.unhashable_class := fun _ => false; Core.atom_eq := fun _ _ => false; Core.none := Core.PAtom 0;
+  Core.suppressed := fun _ => true |}.
+Definition ex_dt : dtf :=
+  {| dy := 2020; dmo := 1; dd := 1; dh := 17; dmi := 0; ds := 0; dus := 999999; doff := Some 19800%Z; dfold := 0 |}.
+Definition ex_dt_fold1 : dtf :=
+  {| dy := 2020; dmo := 1; dd := 1; dh := 17; dmi := 0; ds := 0; dus := 999999; doff := Some 19800%Z; dfold := 1 |}.
+(* list[tuple[int, date, timedelta, Decimal, E, datetime]] *)
+Definition ex_T : Core.ty :=
+  Core.TSeq Core.KList (Core.TTuple [Core.TLeaf 0; Core.TLeaf 1; Core.TLeaf 2; Core.TLeaf 3; Core.TLeaf 4; Core.TLeaf 5]).
+Definition ex_vals : list val :=
+  [VInt (-12345); VDate 2024 2 29; VTimeDelta (-8) 3661 500; VDec "1.50"%string; VEnum "one"%string; VDateTime ex_dt].
+Definition ex_wire : list val :=
+  [VInt (-12345); VText CStr "2024-02-29"%string; VText CStr "-P7DT22H58M58.999500S"%string; VText CStr "1.50"%string; VText CStr "one"%string;
+   VText CStr "2020-01-01T17:00:00.999999+05:30"%string].
+Definition ex_pv (enc : val -> nat) (k : Core.seqkind) (l : list val) : Core.pv :=
+  Core.PSeq Core.KList [Core.PSeq k (map (fun x => Core.PAtom (enc x)) l)].
